@@ -3510,7 +3510,7 @@ static Token *function(Token *tok, Type *basety, VarAttr *attr) {
   } else {
     if (scope->next == NULL) {
       VarScope *sc = hashmap_get2(&scope->vars, ty->name->loc, ty->name->len);
-      if (sc && sc->var && !sc->var->is_function)
+      if (sc && sc->var && !sc->var->is_function && sc->var->ty->kind != TY_FUNC)
         error_tok(ty->name, "redeclared as a different kind of symbol");
     }
 
